@@ -1,10 +1,10 @@
 SPECIFICATION ISpec
 CONSTANTS
-  Procs = {1,2}
-  Objs = {1}
-  Keys = {1,2}
-  MaxCalls = 3
+  Procs = {1,2,3}
+  Objs = {1,2}
+  Keys = {1}
+  MaxCalls = 1
   Variant = "ok"
-  Algo = "sf"
+  Algo = "rm"
 INVARIANTS FnStartOK FnEndOK CallEndOK WaitOK OneExecPerKey WellFormed
 CHECK_DEADLOCK TRUE
